@@ -39,6 +39,7 @@ type fnCtx struct {
 	nonnil   map[string][]*ssa.BasicBlock
 	depth    int
 	edges    map[[2]int]string
+	allowed  map[string][]string
 	env      *SpecEnv // for invariants (top-level function only)
 }
 
@@ -623,6 +624,24 @@ func (e *Engine) handleLoop(fc *fnCtx, li *loopInfo, sIn *State) map[*ssa.BasicB
 	for _, inv := range invs {
 		e.assume(head, e.evalInv(fc, li, head, inv))
 	}
+	// the function's own frame condition is an implicit invariant of every loop
+	var frameHeaps []string
+	if fc.contract != nil && !fc.contract.ModAll && len(e.inlineStack) == 0 && !havocAll {
+		for _, n := range sortedKeys(modHeaps) {
+			if n == allocHeap {
+				continue
+			}
+			f, ok := e.frameFormula(fc, n, head)
+			if !ok {
+				continue
+			}
+			frameHeaps = append(frameHeaps, n)
+			if fin, ok := e.frameFormula(fc, n, sIn); ok && fin != "true" {
+				e.addObl(fc.fn, "frame.init", fmt.Sprintf("[%d] %s", li.ordinal, n), li.header.Instrs[0].Pos(), sIn.Reach, fin)
+			}
+			e.assume(head, f)
+		}
+	}
 	e.autoInvariants(fc, li, sIn, head, modCells)
 	var measureHead string
 	dec, hasDec := e.loopDecreases(fc, li)
@@ -635,6 +654,11 @@ func (e *Engine) handleLoop(fc *fnCtx, li *loopInfo, sIn *State) map[*ssa.BasicB
 		for i, inv := range invs {
 			f := e.evalInv(fc, li, bs, inv)
 			e.addObl(fc.fn, "inv.preserved", fmt.Sprintf("[%d.%d] %s", li.ordinal, i, inv.Text), li.header.Instrs[0].Pos(), bs.Reach, f)
+		}
+		for _, n := range frameHeaps {
+			if f, ok := e.frameFormula(fc, n, bs); ok {
+				e.addObl(fc.fn, "frame.preserved", fmt.Sprintf("[%d] %s", li.ordinal, n), li.header.Instrs[0].Pos(), bs.Reach, f)
+			}
 		}
 		if hasDec {
 			m := e.evalInv(fc, li, bs, dec)
@@ -682,6 +706,16 @@ func (e *Engine) autoInvariants(fc *fnCtx, li *loopInfo, sIn, head *State, mod m
 		switch a.Comment {
 		case "rangeindex":
 			e.assume(head, "(>= "+head.Cells[k].T+" (- 1))")
+			// index+1 <= length: holds initially (index = -1) and is preserved because the body is only entered when index+1 < length
+			if iff, ok := li.header.Instrs[len(li.header.Instrs)-1].(*ssa.If); ok {
+				if cmp, ok := iff.Cond.(*ssa.BinOp); ok && cmp.Op == token.LSS {
+					if lv, ok := fc.regs[cmp.Y]; ok && lv.T != "" {
+						e.assume(head, "(<= (+ "+head.Cells[k].T+" 1) "+lv.T+")")
+					} else if c, ok := cmp.Y.(*ssa.Const); ok {
+						e.assume(head, "(<= (+ "+head.Cells[k].T+" 1) "+e.constVal(c).T+")")
+					}
+				}
+			}
 		case "rangeint.iter":
 			e.assume(head, "(>= "+head.Cells[k].T+" 0)")
 		}
